@@ -67,9 +67,9 @@ def alIndex (prealloc : Nat) (ns : List Nat) : String :=
         | none => h2
         | some sz =>
           -- the new, smaller group is allocated before the old one is freed
-          let old := match d.streams.getLast? with
-            | some s => (match s.getLast? with | some g => groupBytes B g | none => 0)
-            | none => 0
+          let old := match d.streams with
+            | (g :: _) :: _ => groupBytes B g
+            | _ => 0
           (h2.alloc sz).free old
       let h4 := h3.free B.szIndex
       (h4, some d', s!"{h4.live}/{u64 (indexMemusage B d'.streams.length d'.blocks)}/{d'.streams.length}/{d'.blocks}" :: out, false)
